@@ -23,10 +23,20 @@ func runC11(c *Ctx) {
 	if c.Thorough() {
 		n = int64(numForms) * 1024
 	}
-	c.Cases(gridSize+n, func(idx int64, r *Rng) {
+	nLarge := int64(3000)
+	if c.Thorough() {
+		nLarge = 600000
+	}
+	c.Cases(gridSize+nLarge+n, func(idx int64, r *Rng) {
 		var sc *StepCase
 		limited := true
-		if idx < gridSize {
+		if idx >= gridSize+n {
+			// cores from 2^15 to 2^20 with limits anywhere and pointer sums aimed at the discontinuities of Fold
+			sc = genLargeCase(r)
+			sc.K = 1
+			limited = sc.R < sc.M || sc.W < sc.M
+			c.Inc("large_core_cases")
+		} else if idx < gridSize {
 			// the boundary grid: every form x A,B in {0,1,2,M-1} x limits (M,M) (1,M) (M,1) (1,1) (2,2) (M-1,*)
 			sc = genGridCase(idx, r)
 			limited = sc.R < sc.M || sc.W < sc.M
@@ -38,7 +48,7 @@ func runC11(c *Ctx) {
 				sc.R, sc.W = sc.M, sc.M
 			}
 		}
-		if sc.M > 8000 {
+		if sc.M > 8000 && idx < gridSize+n {
 			sc.M = 8000
 			sc.R, sc.W = min(sc.R, 8000), min(sc.W, 8000)
 			sc.Core = sc.Core[:8000]
@@ -61,6 +71,12 @@ func runC11(c *Ctx) {
 			var err error
 			if p, msg := try(func() {
 				s, w, err = newStepSim(sc, core, pc)
+				if err == nil && sc.M <= 4096 && r.Chance(1, 6) {
+					// a simulator with a history: step, Reset, spawn again
+					s.RunCycle()
+					s.Reset()
+					err = s.SpawnWarrior(0, 0)
+				}
 				if err == nil {
 					if sc.M <= 4096 && r.Chance(1, 2) {
 						decoySim(sc, r) // a bystander simulator with other limits
@@ -115,10 +131,22 @@ func runC11(c *Ctx) {
 			if radius*2+1 < m {
 				twin := append([]mars.Insn(nil), core...)
 				changed := 0
-				for a := 0; a < m; a++ {
-					if circDist(a, pc, m) > radius && (m <= 64 || r.Chance(1, 4)) {
-						twin[a] = randInsn(r, m, rl, wl)
-						changed++
+				if m <= 8000 {
+					for a := 0; a < m; a++ {
+						if circDist(a, pc, m) > radius && (m <= 64 || r.Chance(1, 4)) {
+							twin[a] = randInsn(r, m, rl, wl)
+							changed++
+						}
+					}
+				} else {
+					// big cores: EVERY cell outside the window is altered (cheaply, without the generator):
+					// whatever is fetched from beyond the limits then differs between the two cores
+					for a := 0; a < m; a++ {
+						if circDist(a, pc, m) > radius {
+							c0 := twin[a]
+							twin[a] = mars.Insn{Op: mars.Op((int(c0.Op) + 1 + a%3) % int(mars.NumOps)), Mod: c0.Mod, AM: c0.AM, BM: c0.BM, A: (c0.A + 1 + a%5) % m, B: (c0.B + 2 + a%7) % m}
+							changed++
+						}
 					}
 				}
 				var s2 g.Simulator
